@@ -9,7 +9,7 @@ ALPHA = (
 SNIPPETS = ["def ", "end", "nil", "1.5", "1..2", "1...3", "0xff", "1_000", "-1", "+2", "->", "=>", "===", "==", "!=", "||=", "&&", "&.",
             "<<~EOS", "<<EOS", "%w[", "%i(", "%=", "#{", ":\"a b\"", "*=", "**", "x.y", "@a", "$b", "A::B", "a: 1", "\\\"", "\\",
             "1.", "1.x", "9223372036854775807", "9223372036854775808", "12e3", "a?", "b!", "<=>", "<<", ">>", ">=", "<=", "|x|",
-            "\n# c\n", "=begin\n", "=end\n", "'a\nb'", "\"a\nb\"", "`ls`", "nil?", "-", "- 1", "-x", "1.2.3", "1__2", "0b1", "0o7x"]
+            "\n# c\n", "=begin\n", "=end\n", "'a\nb'", "\"a\nb\"", "\"a\\\nb\"", "'x\\\n'", "`ls`", "nil?", "-", "- 1", "-x", "1.2.3", "1__2", "0b1", "0o7x"]
 
 
 def random_runes(rng, maxlen=40):
